@@ -108,7 +108,7 @@ Definition add_if_new (d : disk) (n : bytes) (v : bytes) : disk * res :=
     if pre_collide real d then (d, RExc)
     else if (match rget real (loose d) with Some _ => true | None => false end)
             || post_collide real d
-            || (match rget n (packed d) with Some _ => true | None => false end) then (d, RFalse)
+            || (match rget real (packed d) with Some _ => true | None => false end) then (d, RFalse)
     else ({| loose := rset real (Sha v) (loose d); packed := packed d |}, RTrue)
   end.
 
